@@ -4,6 +4,9 @@ Each property has a corpus of labelled source edits (spverif/corpus/<id>.py):
   * breaking edits  (expect = "fire"):   the check must report a VIOLATION
     (optionally: of the named rule);
   * preserving edits (expect = "silent"): the check must stay silent.
+  * preserving rewrites beyond the idioms the analysis recognises
+    (expect = "no-alarm"): the check may say "cannot decide" (exit 2) but
+    must never report a VIOLATION.
 Edits are applied in memory (overlay) to the *current* text of /repo; an
 edit whose anchor text is not present any more is skipped and counted.
 A missed breaking edit or a flagged preserving edit is a defect of the
@@ -122,7 +125,7 @@ def run(pid, ctx, chk):
             outs = list(ex.map(_run_one, [(pid, ov) for _, ov in jobs]))
         for (e, _), (code, rules, errs) in zip(jobs, outs):
             results.append((e, code, rules, errs))
-    fired_ok = silent_ok = 0
+    fired_ok = silent_ok = noalarm_ok = 0
     failures = []
     table = []
     for e, code, rules, errs in results:
@@ -136,6 +139,12 @@ def run(pid, ctx, chk):
             else:
                 failures.append("breaking edit %s not reported as expected (exit %d, rules %s, errors %s)"
                                 % (e["id"], code, rules, errs))
+        elif exp == "no-alarm":
+            good = code in (0, 2) and not rules
+            if good:
+                noalarm_ok += 1
+            else:
+                failures.append("behaviour-preserving rewrite %s reported as a violation (exit %d, rules %s)" % (e["id"], code, rules))
         else:
             good = code == 0
             if good:
@@ -151,6 +160,7 @@ def run(pid, ctx, chk):
         "skipped_anchor_missing": skipped,
         "breaking_detected": fired_ok,
         "preserving_silent": silent_ok,
+        "rewrites_without_alarm": noalarm_ok,
         "failures": failures,
         "table": table,
     }
